@@ -377,9 +377,31 @@ class Exec(Interp):
         it = self.eval(st, node_iter)
         return it
 
+    def slice_view(self, st, node_iter):
+        """`for x in lst[a:b]`: iterate a view of the base list (no temporary list is materialised)."""
+        base = self.eval(st, node_iter.value)
+        if isinstance(base.kind, KOpt):
+            base = self.coerce(st, base, base.kind.inner, node_iter)
+        if not isinstance(base.kind, KList) or node_iter.slice.step is not None:
+            return None
+        self.nonnull(st, base, node_iter)
+        self.check_container_guard(st, base, node_iter, False)
+        sl = node_iter.slice
+        n = self.list_len(st, base)
+        lo = self.coerce(st, self.eval(st, sl.lower), KInt, node_iter).term if sl.lower is not None else z3.IntVal(0)
+        hi = self.coerce(st, self.eval(st, sl.upper), KInt, node_iter).term if sl.upper is not None else n
+        clamp = lambda x: z3.If(x < 0, z3.If(n + x < 0, 0, n + x), z3.If(x > n, n, x))
+        lo, hi = z3.simplify(clamp(lo)), z3.simplify(clamp(hi))
+        ln = z3.If(hi - lo < 0, 0, hi - lo)
+        return SV(KConst, None, const=("seq", ln, (lambda i: self.list_get(st, base, lo + i)), base.kind.elem))
+
     def exec_For(self, st, node):
         spec = self.loop_spec(st, node)
-        itv = self.eval(st, node.iter)
+        itv = None
+        if isinstance(node.iter, ast.Subscript) and isinstance(node.iter.slice, ast.Slice):
+            itv = self.slice_view(st, node.iter)
+        if itv is None:
+            itv = self.eval(st, node.iter)
         # literal / python-side tuples: unroll
         if isinstance(itv.kind, KTuple) and (spec is None or spec.unroll):
             try:
